@@ -201,6 +201,21 @@ impl Inflights {
     }
 }
 
+#[cfg(tikv_raft_rs_verif)]
+impl Inflights {
+    /// Read-only view for the external verification harness:
+    /// (start, count, cap, incoming_cap, ring buffer).
+    pub fn verif_view(&self) -> (usize, usize, usize, Option<usize>, &[u64]) {
+        (
+            self.start,
+            self.count,
+            self.cap,
+            self.incoming_cap,
+            &self.buffer,
+        )
+    }
+}
+
 #[cfg(test)]
 mod tests {
     use super::Inflights;
